@@ -108,6 +108,18 @@ func checkStatsMergeAdds(a, b segment.Segment, field string) *Fail {
 			fail = mismatch("C16", "stats", "Merge", fmt.Sprintf("field %q: %+v.Merge(%+v) = %+v want %+v", field, x0, y0, x1, want))
 		} else if y1 != y0 {
 			fail = mismatch("C16", "stats", "Merge", fmt.Sprintf("field %q: Merge modified its argument: %+v -> %+v", field, y0, y1))
+		} else {
+			// the value handed out belongs to the caller: merging into it must
+			// not change what the segment itself reports
+			x2, err := a.CollectionStats(field)
+			if err != nil {
+				fail = apiFail("C16", "stats", "CollectionStats", nil, err)
+				return
+			}
+			again := model.StatObs{Total: x2.TotalDocumentCount(), Docs: x2.DocumentCount(), Sum: x2.SumTotalTermFrequency()}
+			if again != x0 {
+				fail = mismatch("C15", "immutability", "stats-after-Merge", fmt.Sprintf("field %q: after Merge on a value returned by CollectionStats the segment reports %+v instead of %+v", field, again, x0))
+			}
 		}
 	})
 	if pi != nil {
@@ -290,6 +302,16 @@ func checkFooterAll(ws *WSeg, sched *Sched, res *Result) *Fail {
 	if f := checkFooter(ws.Bytes, ws.WriteRet, fmt.Sprintf("seg %d %s", ws.Idx, what), len(ws.Docs), mode); f != nil {
 		return f
 	}
+	for _, d := range []struct{ size, pending int }{{65536, 0}, {8192, 517}} {
+		b, ret, pi, err := PersistBuffered(ws.Seg, d.size, d.pending, sched)
+		path := fmt.Sprintf("seg %d Segment.WriteTo(re-persist into a bufio.Writer of %d bytes, %d caller bytes pending)", ws.Idx, d.size, d.pending)
+		if pi != nil || err != nil {
+			return apiFail("C11", "footer", path, pi, err)
+		}
+		if f := checkFooter(b, ret, path, len(ws.Docs), mode); f != nil {
+			return f
+		}
+	}
 	for _, store := range []string{StoreMem, StoreFile} {
 		loaded, _, _, pi, err := LoadView(ws.Bytes, store, sched)
 		if pi != nil || err != nil {
@@ -331,6 +353,26 @@ func firstDiff(a, b []byte) int {
 func checkRoundtrip(ws *WSeg, sched *Sched, res *Result) *Fail {
 	if ws.WriteRet != int64(len(ws.Bytes)) {
 		return mismatch("C04", "roundtrip", "byte-count", fmt.Sprintf("seg %d: WriteTo returned %d, writer received %d bytes", ws.Idx, ws.WriteRet, len(ws.Bytes)))
+	}
+	// destinations that are themselves buffered writers (with or without
+	// bytes of the caller pending): same bytes, exact count
+	for i, d := range []struct{ size, pending int }{{4096, 0}, {65536, 0}, {65536, 1000}, {16, 3}} {
+		view := ws.Seg
+		if i%2 == 1 && ws.Orig != nil {
+			view = ws.Orig
+		}
+		b, ret, pi, err := PersistBuffered(view, d.size, d.pending, sched)
+		where := fmt.Sprintf("seg %d: WriteTo into a bufio.Writer of %d bytes with %d caller bytes pending", ws.Idx, d.size, d.pending)
+		if pi != nil || err != nil {
+			return apiFail("C04", "roundtrip", where, pi, err)
+		}
+		if !bytes.Equal(b, ws.Bytes) {
+			return mismatch("C04", "roundtrip", "buffered-destination-bytes", fmt.Sprintf("%s wrote %d bytes differing from the %d-byte file at offset %d", where, len(b), len(ws.Bytes), firstDiff(b, ws.Bytes)))
+		}
+		if ret != int64(len(b)) {
+			return mismatch("C04", "roundtrip", "byte-count", fmt.Sprintf("%s returned %d but wrote %d bytes", where, ret, len(b)))
+		}
+		res.probe("persist-into-buffered-destination")
 	}
 	var ref *model.Obs
 	refName := ""
